@@ -150,6 +150,36 @@ def memFn (s : State) : Int :=
 def memVerdict (t : Transition) : String :=
   if t.post.mem - t.pre.mem == memFn t.post - memFn t.pre || t.post.mem == memFn t.post then "adm" else "rej"
 
+/-- keys named by one keyspace primitive: (read, written) -/
+def primKeys : Prim → List Bytes × List Bytes
+  | .keysExist ks => (ks, []) | .getExpiry k => ([k], []) | .getValues ks => (ks, [])
+  | .setValues es => ([], es.map (·.1)) | .setExpiry k _ _ => ([], [k]) | .deleteKey k => ([], [k])
+  | .mutObj k _ => ([], [k]) | .tagOid k _ => ([], [k])
+  | _ => ([], [])
+
+/-- keys the model program touches when run on this state: (read, written) -/
+def accessed (c : Ctx) : Prog Res → State → List Bytes × List Bytes
+  | .ret _, _ => ([], [])
+  | .panic _, _ => ([], [])
+  | .unmod _, _ => ([], [])
+  | .call p k, s =>
+    let (r0, w0) := primKeys p
+    match p.exec c s with
+    | none => (r0, w0)
+    | some (s', r) => let (r1, w1) := accessed c (k r) s'; (r0 ++ r1, w0 ++ w1)
+
+/-- C06 on a data command: the footprint the command's key function declares to the authorization gate covers what the
+    command touches — every key it writes is a declared write key, every key it reads a declared read or write key.
+    (`na`: no declaration reported, or the command is outside the modelled handler rows.) -/
+def fpVerdict (t : Transition) : String :=
+  match t.kf, progOf t.ctx t.cmd with
+  | some (rs, ws), some prog =>
+    let (ar, aw) := accessed t.ctx prog t.pre
+    if aw.any (fun k => !ws.contains k) then "rej:write-undeclared"
+    else if ar.any (fun k => !rs.contains k && !ws.contains k) then "rej:read-undeclared"
+    else "adm"
+  | _, _ => "na"
+
 def dbOrEmpty (s : State) (j : Nat) : Db := canonDb (s.db j)
 
 def allDbIdx (t : Transition) : List Nat := ((t.pre.dbs.map (·.1)) ++ (t.post.dbs.map (·.1))).eraseDups
@@ -368,7 +398,7 @@ partial def loop (h : IO.FS.Stream) (out : IO.FS.Stream) : IO Unit := do
   else
   match parseLine line with
   | .error e => out.putStrLn s!"? BAD {e}"
-  | .ok t => out.putStrLn s!"{t.seq} {verdict t} ## kv={specKvVerdict t} cls={(Known.classifyAll t.ctx t.pre t.cmd).getD "-"} mcls={(Known.classifyMem t.ctx t.pre t.cmd).getD "-"} pcls={(Known.classifyPure t.ctx t.pre t.cmd).getD "-"} pure={pureVerdict t} mem={memVerdict t} iso={isoVerdict t} dl={hasDeadline t} shape={shapeOf t} wire={(wireVerdict t).1} wcls={(wireVerdict t).2}"
+  | .ok t => out.putStrLn s!"{t.seq} {verdict t} ## kv={specKvVerdict t} cls={(Known.classifyAll t.ctx t.pre t.cmd).getD "-"} mcls={(Known.classifyMem t.ctx t.pre t.cmd).getD "-"} pcls={(Known.classifyPure t.ctx t.pre t.cmd).getD "-"} pure={pureVerdict t} mem={memVerdict t} iso={isoVerdict t} dl={hasDeadline t} shape={shapeOf t} wire={(wireVerdict t).1} wcls={(wireVerdict t).2} acl={fpVerdict t}"
   loop h out
 
 def main : IO Unit := do
